@@ -173,3 +173,54 @@ def c_conflicts(a: List[Tuple[int, int]], v: int) -> bool:
     ok = all(i.name == 'foo' for i in out)
     got = all(i.version is None or i.version.contains(v) for i in out)
     return R(ok and got == (v in orig))
+
+
+# ---- kernel 2: field quoting of the generated .pc file -----------------------------------------
+from io import StringIO
+from bfg9000.builtins.pkg_config import PkgConfigWriter
+from bfg9000.shell.syntax import Writer as ShWriter, Syntax as ShSyntax
+from vpx.params import no_ctl
+from vpx.models import rpc, rsh
+
+NQ = param('N', 2)
+# characters a .pc field cannot carry to the consumer at all (established at run time with
+# hand-written .pc files and the real pkg-config: vpx.props.c17.probe)
+PC_EXCL = param('pc_excl', '$()')
+# known finding C17-F17: a backslash directly before '#'
+KF_BSHASH = param('kf_bshash', False)
+
+
+def _field_text(values):
+    out = ShWriter(StringIO(), localize_paths=False)
+    w = PkgConfigWriter.__new__(PkgConfigWriter)
+    w._write_field(out, 'Cflags', values, ShSyntax.shell)
+    text = out.stream.getvalue()
+    head = 'Cflags: '
+    if not (text.startswith(head) and text.endswith('\n')):
+        return None
+    return text[len(head):-1]
+
+
+def _in_scope(s):
+    for ch in s:
+        if ch in PC_EXCL:
+            return False
+    if KF_BSHASH and (chr(92) + '#') in s:
+        return False
+    return True
+
+
+def q_define(s: str) -> bool:
+    """a compile option -D<s> written into Cflags by the real PkgConfigWriter._write_field comes
+    out of `pkg-config --cflags` (reference model of pkgconf, validated against the real tool) and
+    through the consumer's sh parsing as exactly that option
+    pre: len(s) == NQ and no_ctl(s) and _in_scope(s)
+    post: _
+    """
+    text = _field_text(['-DA=1', '-D' + s, '-DZ=2'])
+    if text is None:
+        return R(False)
+    printed = rpc.field(text)
+    if printed is None:
+        return R(False)
+    return R(rsh.argv('prog ' + printed) == ['prog', '-DA=1', '-D' + s, '-DZ=2'])
